@@ -80,6 +80,8 @@ def requests_for(n, picks):
 
 def check(case, rec):
     from nptdms import TdmsFile
+    if 'scaled' in case:
+        return check_scaled(case, rec)
     fs = case['fs']
     data, _i, lay = encode_file(fs)
     ex = expected_content(fs)
@@ -218,6 +220,9 @@ def cases(draw, **kw):
                 props=False, pad=False, nodata_entries=False, names='simple', max_groups=2)
     opts.update(kw)
     fs = draw(S.file_spec(**opts))
+    if draw(st.integers(0, 2)) == 0:
+        # one interleaved segment before the last one ends in an incomplete chunk (complete rows only are its content)
+        fs = draw(S.shorten_interleaved_middle(fs))
     picks = draw(st.lists(st.tuples(st.integers(0, 10 ** 6), st.integers(0, 10 ** 6), st.integers(0, 10 ** 6)),
                           min_size=60, max_size=60))
     cut = draw(st.one_of(st.none(), st.none(), st.integers(0, 10 ** 6)))
@@ -261,6 +266,49 @@ def check_daqmx(case, rec):
         tf_l.close()
 
 
+def check_scaled(case, rec):
+    """channels with NI_Scale definitions (C13 graphs): windows, slices and indices of the SCALED data against slices of a
+    reference full read taken from a separate, freshly opened file (bit for bit: scaling is elementwise)"""
+    from nptdms import TdmsFile
+    from props.C13 import build_file
+    from props.C03 import DT_TO_T
+    from vf.observe import le_bytes
+    fs, _graph = build_file(case['scaled'])
+    data, _i, _l = encode_file(fs)
+    rec.label('scaled_channel', 'raw=' + case['scaled']['type'])
+    try:
+        with TdmsFile.open(io.BytesIO(data)) as ref_file:
+            ref = np.asarray(ref_file['g']['c'][:]).copy()
+    except Exception as e:      # noqa
+        from vf.harness import exc_key, describe_exc
+        rec.violation('read:raised', describe_exc(e), key=exc_key(e))
+        return
+    t = DT_TO_T.get(ref.dtype.newbyteorder('=').name)
+    if t is None:
+        return
+    vals = le_bytes(ref)
+    n = len(ref)
+    rec.nontrivial(n >= 2)
+    ok, tf_e = rec.guard('read', lambda: TdmsFile.read(io.BytesIO(data)))
+    ok2, tf_l = rec.guard('open', lambda: TdmsFile.open(io.BytesIO(data)))
+    if not (ok and ok2):
+        return
+    try:
+        windows, slices, idxs, _ex = requests_for(n, case['picks'])
+        for mode, tf in (('eager', tf_e), ('lazy', tf_l)):
+            check_channel(rec, mode, tf['g']['c'], t, vals, n, "/'g'/'c'", windows, slices, idxs, True, scaled_only=True)
+    finally:
+        tf_l.close()
+
+
+@st.composite
+def scaled_cases(draw):
+    from props.C13 import cases as c13_cases
+    picks = draw(st.lists(st.tuples(st.integers(0, 10 ** 6), st.integers(0, 10 ** 6), st.integers(0, 10 ** 6)),
+                          min_size=20, max_size=20))
+    return {'scaled': draw(c13_cases(noop=True)), 'picks': [list(x) for x in picks]}
+
+
 @st.composite
 def daqmx_cases(draw):
     from vf.daqmx import daqmx_file
@@ -282,8 +330,10 @@ def jobs(tier):
     if tier == 'quick':
         return [Job('files', 'hyp', lambda: cases(), n=4000),
                 Job('long_files_shared_offset_prefix', 'hyp', twin_cases, n=64),
-                Job('daqmx_files', 'hyp', daqmx_cases, n=700, check=check_daqmx)]
+                Job('daqmx_files', 'hyp', daqmx_cases, n=700, check=check_daqmx),
+                Job('scaled_channels', 'hyp', scaled_cases, n=700, check=check_scaled)]
     return [Job('files', 'hyp', lambda: cases(), n=40000),
             Job('long_files_shared_offset_prefix', 'hyp', twin_cases, n=2000),
             Job('daqmx_files', 'hyp', daqmx_cases, n=20000, check=check_daqmx),
+            Job('scaled_channels', 'hyp', scaled_cases, n=20000, check=check_scaled),
             Job('wider', 'hyp', lambda: cases(max_segments=8, max_n=9, max_chunks=5, max_channels=4), n=10000)]
